@@ -142,7 +142,21 @@ class Engine(ExprMixin, CallMixin):
                 sorts = ast.literal_eval(k.value)
         names = [a.arg for a in lam.args.args]
         # sorts={"x": "Cls"} with Cls a heap class of the sidecar: x ranges over all references of that class
-        vs = [z3.Const(uid(n), I if sorts.get(n) in self.classes or sorts.get(n) == "char" else self.sort_of(sorts.get(n, "int"))) for n in names]
+        # bound-variable names: globally unique by default; a sidecar may opt in (STABLE_BINDERS = True) to names that depend
+        # only on the lambda parameter and the quantifier nesting depth, so that the same clause text evaluated twice over the
+        # same values yields the identical term (a callee postcondition re-exported by its caller is then discharged by
+        # syntactic identity).  "!b<depth>" cannot clash with a program variable, and an enclosing binder has a smaller depth.
+        depth = getattr(self, "_qdepth", 0)
+        stable = bool(getattr(self.sidecar, "STABLE_BINDERS", False))
+        bname = (lambda n: f"{n}!b{depth}") if stable else uid
+        vs = [z3.Const(bname(n), I if sorts.get(n) in self.classes or sorts.get(n) == "char" else self.sort_of(sorts.get(n, "int"))) for n in names]
+        self._qdepth = depth + 1
+        try:
+            return self._quant_body(node, st, is_all, lam, sorts, names, vs)
+        finally:
+            self._qdepth = depth
+
+    def _quant_body(self, node, st, is_all, lam, sorts, names, vs):
         st2 = st.copy()
         for n, v in zip(names, vs):
             st2.env[n] = VRef(sorts[n], v) if sorts.get(n) in self.classes else v
@@ -252,7 +266,27 @@ class Engine(ExprMixin, CallMixin):
 
     def spec_empty(self, node, st):
         """empty('list[int]'): the empty container of the given shape"""
-        return self.default_of(self.shape(ast.literal_eval(node.args[0])))
+        shp = self.shape(ast.literal_eval(node.args[0]))
+        if shp[0] == "dict":
+            return self.empty_of(shp, VEmptyDict())
+        return self.default_of(shp)
+
+    def spec_dstore(self, node, st):
+        """dstore(D, k, v): the (ghost) map D with D[k] = v; ghost maps carry no insertion order"""
+        D, k, v = self.ev(node.args[0], st), self.ev(node.args[1], st), self.ev(node.args[2], st)
+        ks = key_terms(self.coerce(k, D.kshape))
+        from .calls import _store_multi
+        return VDict(D.kshape, D.vshape, _store_multi(D.dom, ks, z3.BoolVal(True)), sto(D.vals, ks, self.coerce(v, D.vshape)), None, D.default)
+
+    def spec_fill(self, node, st):
+        """fill(n, v): the list of n copies of the integer v (ghost arrays)"""
+        n, v = self.ev(node.args[0], st), self.ev(node.args[1], st)
+        return VList(n, z3.K(z3.IntSort(), to_z3(v)), ("int",))
+
+    def spec_upd(self, node, st):
+        """upd(L, i, v): the list L with position i replaced by v (ghost arrays; i is taken as given, no wrap-around)"""
+        L, i, v = (self.ev(a, st) for a in node.args[:3])
+        return VList(L.length, sto(L.elems, [to_z3(i)], self.coerce(v, L.eshape)), L.eshape)
 
     def spec_snoc(self, node, st):
         """snoc(L, x): the list L with x appended (spec-level L + [x] as an array store)"""
@@ -290,6 +324,35 @@ class Engine(ExprMixin, CallMixin):
         if isinstance(k, VOpt) and dc["kshape"][0] != "opt":
             k = k.val
         return sel(dc["last"], *key_terms(k))
+
+    def spec_upd(self, node, st):
+        """upd(L, p, x): the list L with position p replaced by x (spec-level functional update)"""
+        L, p_, x = self.ev(node.args[0], st), self.ev(node.args[1], st), self.ev(node.args[2], st)
+        return VList(L.length, sto(L.elems, [to_z3(p_)], self.coerce(x, L.eshape)), L.eshape)
+
+    def spec_first_index(self, node, st):
+        """first_index(L, x): the least position of x in L when x occurs in L (otherwise an arbitrary integer).  A ghost
+        choice: introduces a fresh p constrained by  (exists q. L[q] == x) -> 0 <= p < len(L), L[p] == x, nothing before p
+        (the least-number principle - conservative, no program fact is assumed)."""
+        L, x = self.ev(node.args[0], st), self.ev(node.args[1], st)
+        p_, q = z3.Int(uid("first")), z3.Int(uid("q"))
+        n = to_z3(L.length)
+        at = lambda t: to_z3(self.eq(sel(L.elems, t), x))
+        st.assume(z3.Implies(z3.Exists([q], z3.And(q >= 0, q < n, at(q))),
+                             z3.And(p_ >= 0, p_ < n, at(p_), z3.ForAll([q], z3.Implies(z3.And(q >= 0, q < p_), z3.Not(at(q)))))))
+        return p_
+
+    def spec_last_enum(self, node, st):
+        """last_enum(): ghost view of the duplicate-free enumeration chosen for the set iterated / comprehended last"""
+        e = getattr(self, "last_enum", None)
+        if e is None:
+            raise ContractError("last_enum(): no set was enumerated")
+        return e
+
+    def spec_some(self, node, st):
+        """some(x): the payload of an Optional value (meaningful where x is not None)"""
+        v = self.ev(node.args[0], st)
+        return v.val if isinstance(v, VOpt) else v
 
     def spec_is_none(self, node, st):
         v = self.ev(node.args[0], st)
@@ -951,6 +1014,7 @@ class Engine(ExprMixin, CallMixin):
                 v = st.env[n]
                 try:
                     st.env[n] = self.fresh_like(v, uid(f"{n}@{tag}"))
+                    self.assume_dict_wf(st, st.env[n])
                     if n in st.narrowed:  # narrowed Optional re-assigned in the loop: unknown Optional at the head
                         st.env[n] = VOpt(z3.Bool(uid(f"{n}@{tag}.none")), st.env[n])
                         st.narrowed = st.narrowed - {n}
@@ -966,6 +1030,24 @@ class Engine(ExprMixin, CallMixin):
                     self.heap_tree(st, cls, f)
                     st.heap[(cls, f)] = fresh(self.field_shape(cls, f), uid(f"H.{cls}.{f}@{tag}"), (I,))
                     self.assume_heap_wf(st, cls, f)
+
+    def assume_dict_wf(self, st, d):
+        """representation invariant of an insertion-ordered dict (opt-in: sidecar DICT_ORDER_INVARIANT): `order` lists exactly
+        the keys of `dom`, each once (rank = the unknown position of a key).  Every operation the engine models on a dict
+        (store of a new / an existing key, defaultdict read) preserves it, so it holds for the unknown dict at a loop head."""
+        if not (isinstance(d, VDict) and d.order is not None and getattr(self.sidecar, "DICT_ORDER_INVARIANT", False)):
+            return
+        ksorts = key_sorts(d.kshape)
+        ks = [z3.Const(uid("k"), srt) for srt in ksorts]
+        rank = fresh(("int",), uid("dict.rank"), tuple(ksorts))
+        L = to_z3(d.order.length)
+        p_, q_ = z3.Int(uid("p")), z3.Int(uid("q"))
+        at = lambda t: key_terms(sel(d.order.elems, t))
+        st.assume(L >= 0)
+        st.assume(z3.ForAll([p_], z3.Implies(z3.And(p_ >= 0, p_ < L), sel(d.dom, *at(p_)))))
+        st.assume(z3.ForAll([p_, q_], z3.Implies(z3.And(p_ >= 0, p_ < q_, q_ < L), z3.Or(*[a != b for a, b in zip(at(p_), at(q_))]))))
+        rk = sel(rank, *ks)
+        st.assume(z3.ForAll(ks, z3.Implies(sel(d.dom, *ks), z3.And(rk >= 0, rk < L, *[a == b for a, b in zip(at(rk), ks)]))))
 
     def havoc_ghost(self, st, stmts, tag):
         """ghost variables that a ghost block anchored inside the loop body re-binds (`let`) are loop-modified state:
@@ -1048,6 +1130,8 @@ class Engine(ExprMixin, CallMixin):
             return self.iter_plan(it.lst, s, st)
         if is_leaf(it) and it.sort() == z3.StringSort():
             return z3.Length(it), (lambda k: z3.SubString(it, to_z3(k), 1)), preds, 0
+        if isinstance(it, VDict) and it.order is not None:
+            it = VDictView(it, "keys")  # iterating a dict iterates its keys (insertion order)
         if isinstance(it, (VSet, VDictView, VEnumSet)):
             return self.set_iter_plan(it, s, st) + (preds, 0)
         raise Unsupported(f"iteration over {type(it).__name__} at line {s.lineno}")
@@ -1270,6 +1354,13 @@ class Engine(ExprMixin, CallMixin):
             goal = self.spec_eval(cmd[7:], st)
             self.emit(f"ghost.assert[{label}]", st, goal, node, kind="ghost")
             st.assume(to_z3(goal))
+        elif cmd.startswith("cut "):
+            # proof cut: P is proved here, and from here on this path knows ONLY P (every earlier hypothesis is dropped).
+            # Dropping hypotheses can only make later obligations harder, never easier: sound; keeps contexts small.
+            label = g.get("label", g["at"][:24])
+            goal = self.spec_eval(cmd[4:], st)
+            self.emit(f"ghost.cut[{label}]", st, goal, node, kind="ghost")
+            st.pc[:] = [to_z3(goal)]
         elif cmd.startswith("identity "):
             # a universally valid (ring) identity: proved without any hypotheses, then assumed
             label = g.get("label", g["at"][:24])
